@@ -6,7 +6,11 @@
 (* run by taskgroup.Do, which returns when all three returned nil.              *)
 (* io.Pipe: a Write blocks until every byte of it was taken by Reads; a Read    *)
 (* takes min(len(buf), bytes offered). The upstream reader returns ARBITRARILY  *)
-(* short reads (chunks). C15: what each consumer receives - hence what it       *)
+(* short reads (chunks); io.EOF may arrive TOGETHER with the last chunk         *)
+(* (n > 0, err = EOF) or in a read of its own (0, EOF) - in the latter case     *)
+(* ctxcopy still performs one zero-length Write to both pipes (a rendezvous     *)
+(* with each consumer that delivers no byte) before it returns.                 *)
+(* C15: what each consumer receives - hence what it                             *)
 (* writes - is a function of the byte stream only, not of the chunking or the   *)
 (* schedule; no deadlock; the group returns only after all three tasks.         *)
 EXTENDS Integers, Sequences, FiniteSets, TLC
@@ -16,41 +20,51 @@ CONSTANTS N,          \* stream length
 RECURSIVE Comps(_)
 Comps(n) == IF n = 0 THEN {<<>>} ELSE UNION {{<<k>> \o c : c \in Comps(n - k)} : k \in 1..n}
 VARIABLES chunks, ci,      \* chunking chosen by the upstream reader; index of the chunk being written
-          wpc,             \* reader task: "read" | "wA" | "wB" | "close" | "done"
+          lastEOF,         \* TRUE: the upstream returns io.EOF together with its last chunk
+          wpc,             \* reader task: "read" | "wA" | "wB" | "zA" | "zB" | "close" | "done"
           offer,           \* bytes of the current chunk not yet taken from the pipe being written
           gotA, gotB,      \* stream positions reached by the consumers (bytes received, in order)
           eofA, eofB,      \* pipes closed by the reader
           doneA, doneB,    \* consumers returned
           grp              \* taskgroup: number of tasks that reported
-vars == <<chunks, ci, wpc, offer, gotA, gotB, eofA, eofB, doneA, doneB, grp>>
-Init == /\ chunks \in Comps(N) /\ ci = 1 /\ wpc = "read" /\ offer = 0
+vars == <<chunks, ci, lastEOF, wpc, offer, gotA, gotB, eofA, eofB, doneA, doneB, grp>>
+Init == /\ chunks \in Comps(N) /\ lastEOF \in BOOLEAN /\ ci = 1 /\ wpc = "read" /\ offer = 0
         /\ gotA = 0 /\ gotB = 0 /\ eofA = FALSE /\ eofB = FALSE /\ doneA = FALSE /\ doneB = FALSE /\ grp = 0
 \* upstream.Read returned the next chunk (or EOF)
 RRead == /\ wpc = "read"
          /\ IF ci <= Len(chunks) THEN wpc' = "wA" /\ offer' = chunks[ci] /\ UNCHANGED ci
-            ELSE wpc' = "close" /\ UNCHANGED <<offer, ci>>
-         /\ UNCHANGED <<chunks, gotA, gotB, eofA, eofB, doneA, doneB, grp>>
+            ELSE wpc' = "zA" /\ UNCHANGED <<offer, ci>>      \* (0, EOF): eof noted, then Write(buf[:0])
+         /\ UNCHANGED <<chunks, lastEOF, gotA, gotB, eofA, eofB, doneA, doneB, grp>>
 \* consumer A's Read meets the pending pipe write: takes min(BufA, offer)
 ATake == /\ wpc = "wA" /\ offer > 0 /\ ~doneA
          /\ LET k == IF BufA < offer THEN BufA ELSE offer IN
             /\ gotA' = gotA + k
             /\ (IF offer - k = 0 THEN wpc' = "wB" /\ offer' = chunks[ci] ELSE offer' = offer - k /\ UNCHANGED wpc)
-         /\ UNCHANGED <<chunks, ci, gotB, eofA, eofB, doneA, doneB, grp>>
+         /\ UNCHANGED <<chunks, ci, lastEOF, gotB, eofA, eofB, doneA, doneB, grp>>
 BTake == /\ wpc = "wB" /\ offer > 0 /\ ~doneB
          /\ LET k == IF BufB < offer THEN BufB ELSE offer IN
             /\ gotB' = gotB + k
-            /\ (IF offer - k = 0 THEN wpc' = "read" /\ ci' = ci + 1 /\ offer' = 0 ELSE offer' = offer - k /\ UNCHANGED <<wpc, ci>>)
-         /\ UNCHANGED <<chunks, gotA, eofA, eofB, doneA, doneB, grp>>
+            /\ (IF offer - k = 0
+                THEN /\ ci' = ci + 1 /\ offer' = 0
+                     \* the chunk that came with io.EOF was the last Read: the loop ends after this Write
+                     /\ wpc' = IF lastEOF /\ ci = Len(chunks) THEN "close" ELSE "read"
+                ELSE offer' = offer - k /\ UNCHANGED <<wpc, ci>>)
+         /\ UNCHANGED <<chunks, lastEOF, gotA, eofA, eofB, doneA, doneB, grp>>
+\* the zero-length Write after a (0, EOF) read: one rendezvous with each consumer's Read, which returns (0, nil)
+AZero == /\ wpc = "zA" /\ ~doneA /\ wpc' = "zB"
+         /\ UNCHANGED <<chunks, ci, lastEOF, offer, gotA, gotB, eofA, eofB, doneA, doneB, grp>>
+BZero == /\ wpc = "zB" /\ ~doneB /\ wpc' = "close"
+         /\ UNCHANGED <<chunks, ci, lastEOF, offer, gotA, gotB, eofA, eofB, doneA, doneB, grp>>
 \* deferred close of both pipe writers, then the reader task reports
 RClose == /\ wpc = "close" /\ eofA' = TRUE /\ eofB' = TRUE /\ wpc' = "done" /\ grp' = grp + 1
-          /\ UNCHANGED <<chunks, ci, offer, gotA, gotB, doneA, doneB>>
+          /\ UNCHANGED <<chunks, ci, lastEOF, offer, gotA, gotB, doneA, doneB>>
 \* a consumer sees EOF only after it took everything that was written to its pipe
 AEOF == /\ eofA /\ ~doneA /\ doneA' = TRUE /\ grp' = grp + 1
-        /\ UNCHANGED <<chunks, ci, wpc, offer, gotA, gotB, eofA, eofB, doneB>>
+        /\ UNCHANGED <<chunks, ci, lastEOF, wpc, offer, gotA, gotB, eofA, eofB, doneB>>
 BEOF == /\ eofB /\ ~doneB /\ doneB' = TRUE /\ grp' = grp + 1
-        /\ UNCHANGED <<chunks, ci, wpc, offer, gotA, gotB, eofA, eofB, doneA>>
+        /\ UNCHANGED <<chunks, ci, lastEOF, wpc, offer, gotA, gotB, eofA, eofB, doneA>>
 Terminating == grp = 3 /\ UNCHANGED vars
-Next == RRead \/ ATake \/ BTake \/ RClose \/ AEOF \/ BEOF \/ Terminating
+Next == RRead \/ ATake \/ BTake \/ AZero \/ BZero \/ RClose \/ AEOF \/ BEOF \/ Terminating
 Spec == Init /\ [][Next]_vars /\ WF_vars(Next)
 (* ---- C15 ---- *)
 \* consumers never see bytes out of order or beyond what was written (positions are contiguous by construction):
@@ -59,6 +73,6 @@ Prefixes == gotA <= N /\ gotB <= gotA
 WholeStream == (doneA => gotA = N) /\ (doneB => gotB = N)
 \* taskgroup.Do returns nil only after all three tasks reported
 GroupAfterAll == grp = 3 => (wpc = "done" /\ doneA /\ doneB)
-NoWedge == grp = 3 \/ ENABLED (RRead \/ ATake \/ BTake \/ RClose \/ AEOF \/ BEOF)
+NoWedge == grp = 3 \/ ENABLED (RRead \/ ATake \/ BTake \/ AZero \/ BZero \/ RClose \/ AEOF \/ BEOF)
 Completes == <>(grp = 3)
 =============================================================================
